@@ -48,14 +48,18 @@ CfgsAlias == {[WBase EXCEPT !.io = <<a, b, c>>] : a \in AliasModes, b \in AliasM
 CfgsBusy == {[WBase EXCEPT !.prog = "busy"], [Rich EXCEPT !.prog = "busy", !.io = <<"null", "pipe", "inherit">>]}
 \* the commands on which the failures that do not go away are tried
 PersistCfgs == {WBase, [Rich EXCEPT !.io = <<"null", "pipe", "raw">>, !.gid = "other", !.uid = "unset"]} \cup CfgsBusy
+\* several pre-exec closures with distinguishable outcomes: a failure that is not the last one, two
+\* failures (the FIRST one's errno is the caller's), failures without errno, three closures
+PreOrders == {<<13, 0>>, <<13, 5>>, <<5, 13>>, <<0, 13, 0>>, <<13, 0, 0>>, <<0, 0, 13>>, <<-1, 0>>, <<0, -1, 5>>, <<0, 0, 0>>}
+CfgsPre == {[b EXCEPT !.pre = p] : b \in {WBase, [Rich EXCEPT !.io = <<"null", "pipe", "inherit">>, !.uid = "unset"]}, p \in PreOrders}
 \* the same Command spawned twice (respawn = "same"), or with one more Command::arg in between ("arg")
 ReuseBases == {WBase,
                [Base EXCEPT !.nargs = 2, !.nenv = 2, !.cwd = "ok", !.pg = "own", !.io = <<"null", "pipe", "inherit">>, !.pre = <<0>>],
                [Base EXCEPT !.nargs = 0, !.pre = <<0, 0>>, !.io = <<"pipe", "null", "pipe">>],
                [Base EXCEPT !.prog = "missing"], [Base EXCEPT !.cwd = "missing", !.nenv = 2]}
 CfgsReuse == {[b EXCEPT !.respawn = r] : b \in ReuseBases, r \in {"same", "arg"}}
-CfgsQuick    == CfgsIo \cup CfgsIoRich \cup CfgsDimsQuick \cup CfgsWait \cup CfgsReuse \cup CfgsAlias \cup PersistCfgs
-CfgsThorough == CfgsIo \cup CfgsIoRich \cup CfgsDimsFull \cup CfgsWait \cup CfgsReuse \cup CfgsAlias \cup PersistCfgs
+CfgsQuick    == CfgsIo \cup CfgsIoRich \cup CfgsDimsQuick \cup CfgsWait \cup CfgsReuse \cup CfgsAlias \cup PersistCfgs \cup CfgsPre
+CfgsThorough == CfgsIo \cup CfgsIoRich \cup CfgsDimsFull \cup CfgsWait \cup CfgsReuse \cup CfgsAlias \cup PersistCfgs \cup CfgsPre
 CfgsTiny     == {Base, [Base EXCEPT !.io = <<"null", "pipe", "raw">>, !.cwd = "ok", !.uid = "own", !.gid = "own",
                                !.pg = "own", !.pre = <<0>>, !.nargs = 2, !.nenv = 2],
                  [Base EXCEPT !.cwd = "missing"], [Base EXCEPT !.pre = <<0, 13>>], [Base EXCEPT !.pre = <<-1>>],
@@ -66,7 +70,7 @@ CfgsTiny     == {Base, [Base EXCEPT !.io = <<"null", "pipe", "raw">>, !.cwd = "o
                  [Base EXCEPT !.prog = "missing", !.respawn = "arg"],
                  [WBase EXCEPT !.io = <<"inherit", "fd2", "inherit">>], [WBase EXCEPT !.io = <<"inherit", "inherit", "fd1">>],
                  [WBase EXCEPT !.io = <<"inherit", "fd1", "inherit">>], [WBase EXCEPT !.io = <<"inherit", "fd2", "fd2">>],
-                 [WBase EXCEPT !.prog = "busy"], WBase,
+                 [WBase EXCEPT !.prog = "busy"], WBase, [WBase EXCEPT !.pre = <<13, 0>>], [WBase EXCEPT !.pre = <<13, 5>>],
                  [WBase EXCEPT !.wseq = <<"poll", "wait">>], [WBase EXCEPT !.wseq = <<"wait", "try">>],
                  [WBase EXCEPT !.io = <<"pipe", "inherit", "inherit">>, !.wseq = <<"try", "poll", "try">>]}
 
